@@ -457,6 +457,84 @@ static void groupTem() {
   }
 }
 
+// ---- pairs: a probe field decoded as the SECOND field of a message, through one DataFieldSet and one output stream --
+// (a field's text must not depend on what the preceding field left behind in the stream state)
+struct Spec { const char* key; int len; int div; vector<Bytes> pats; };
+static string typeStr(const Spec& sp) {
+  string type = sp.key;
+  std::transform(type.begin(), type.end(), type.begin(), ::tolower);
+  if (sp.len > 0) type += ":" + std::to_string(sp.len);
+  return type;
+}
+static const DataField* makePairSet(const Spec& a, const Spec& b) {
+  vector< map<string, string> > rows(2);
+  const Spec* sp[2] = {&a, &b};
+  for (int i = 0; i < 2; i++) {
+    rows[i]["name"] = i == 0 ? "x" : "y";
+    rows[i]["part"] = "m";
+    rows[i]["type"] = typeStr(*sp[i]);
+    if (sp[i]->div) rows[i]["divisor"] = std::to_string(sp[i]->div);
+  }
+  DataFieldTemplates templ; string err; const DataField* f = nullptr;
+  result_t rc = DataField::create(true, false, false, MAX_POS + 10, &templ, &rows, &err, &f);
+  if (rc != RESULT_OK || !f) { fprintf(stderr, "HARNESS: cannot create pair %s,%s: %d %s\n", a.key, b.key, rc, err.c_str()); exit(2); }
+  return f;
+}
+static Bytes f32(float v, bool rev) {
+  uint32_t u; memcpy(&u, &v, 4);
+  Bytes b{(uint8_t)u, (uint8_t)(u >> 8), (uint8_t)(u >> 16), (uint8_t)(u >> 24)};
+  if (rev) std::reverse(b.begin(), b.end());
+  return b;
+}
+static void emitPair(const Def& fd, const Def& pd, const DataField* set, int fmt, const Bytes& fb, const Bytes& pb) {
+  string fo, po;
+  result_t frc = decode(fd, fb, fmt, &fo), prc = decode(pd, pb, fmt, &po);      // each alone, fresh stream
+  Bytes all(fb); all.insert(all.end(), pb.begin(), pb.end());
+  MasterSymbolString ms; fill(&ms, true, all);
+  std::ostringstream out;
+  result_t rc = set->read(ms, 0, false, nullptr, -1, FMT[fmt], -1, &out);         // both through one stream
+  g_out.famPats.insert(all);
+  char x[200];
+  snprintf(x, sizeof x, ",\"f\":%d,\"rc\":%d,\"ft\":\"%s\",\"fl\":%d,\"fd\":%d,\"fn\":%zu,\"frc\":%d,\"prc\":%d,\"b\":",
+           5 + fmt, rc, fd.key.c_str(), fd.len, fd.div, fb.size(), frc, prc);
+  g_out.rec("{" + pd.head + x + vf::jbytes(all) + ",\"o\":" + vf::jbytes(out.str()) + ",\"fo\":" + vf::jbytes(fo)
+            + ",\"po\":" + vf::jbytes(po) + "}");
+}
+static void groupPairs() {
+  if (g_mode != "c05") return;
+  vector<Bytes> fl, fr;
+  for (float v : {1234.5f, 0.123456f, 1e10f, -2.5f, 0.25f, 100.0f, 0.0f, 3.14159274f, 1e-5f, 123456.789f}) { fl.push_back(f32(v, false)); fr.push_back(f32(v, true)); }
+  fl.push_back(Bytes{0x00, 0x00, 0xc0, 0x7f}); fr.push_back(Bytes{0x7f, 0xc0, 0x00, 0x00});      // replacement
+  vector<Spec> firsts = {
+    {"D2C", 0, 0, {{0x38, 0x01}, {0xff, 0xff}}}, {"D1C", 0, 0, {{0x27}, {0xff}}}, {"D2B", 0, 0, {{0x80, 0x13}}},
+    {"UCH", 0, 10, {{0x26}}}, {"UCH", 0, -10, {{0x26}}}, {"SIN", 0, 1000, {{0xa6, 0xff}}}, {"FLT", 0, 0, {{0x39, 0x30}}},
+    {"EXP", 0, 0, {f32(0.0f, false), f32(1234.5f, false), f32(1e-7f, false)}}, {"EXR", 0, 0, {f32(0.0f, true)}},
+    {"HEX", 2, 0, {{0x0a, 0xff}}}, {"BDA:3", 0, 0, {{0x26, 0x10, 0x14}}}, {"HTM", 0, 0, {{0x15, 0x04}}}, {"STR", 3, 0, {{0x61, 0x62, 0x20}}},
+    {"PIN", 0, 0, {{0x01, 0x00}}}, {"UIN", 0, 0, {{0x39, 0x30}}}, {"BCD", 0, 0, {{0x26}}}, {"BI3", 3, 0, {{0x28}}}};
+  vector<Spec> probes = {
+    {"EXP", 0, 0, fl}, {"EXR", 0, 0, fr}, {"EXP", 0, 10, {fl[0], fl[1], fl[6]}}, {"EXP", 0, -10, {fl[0], fl[3]}},
+    {"FLT", 0, 0, {{0x39, 0x30}, {0xa6, 0xff}, {0x00, 0x80}}}, {"D2C", 0, 0, {{0x38, 0x01}, {0x01, 0x00}}}, {"D2B", 0, 10, {{0x80, 0x13}}},
+    {"UCH", 0, 10, {{0x26}, {0xff}}}, {"SIN", 0, -10, {{0xa6, 0xff}}}, {"UCH", 0, 0, {{0x26}, {0x00}}}, {"SLG", 0, 0, {{0x15, 0xcd, 0x5b, 0x07}}},
+    {"ULG", 0, 10, {{0x15, 0xcd, 0x5b, 0x07}}}, {"BCD", 0, 0, {{0x26}, {0x05}}}, {"PIN", 0, 0, {{0x00, 0x07}}}, {"BCD:2", 0, 0, {{0x26, 0x01}}},
+    {"BDA:3", 0, 0, {{0x01, 0x02, 0x03}}}, {"HDA:3", 0, 0, {{0x1a, 0x0a, 0x0e}}}, {"DAY", 0, 0, {{0xd0, 0xa3}}}, {"DTM", 0, 0, {{0x73, 0x12, 0x80, 0x00}}},
+    {"BTI", 0, 0, {{0x58, 0x04, 0x21}}}, {"HTM", 0, 0, {{0x05, 0x04}}}, {"MIN", 0, 0, {{0x05, 0x00}}}, {"TTM", 0, 0, {{0x05}}},
+    {"HEX", 2, 0, {{0x0a, 0x0b}}}, {"BI3", 3, 0, {{0x28}}}, {"TEM_P", 0, 0, {{0x03, 0x2d}}}};
+  for (const Spec& pr : probes) {
+    Def* pd = makeDef(pr.key, pr.len, pr.div, 0);
+    for (int fmt : {0, 1}) {
+      char h[32]; snprintf(h, sizeof h, ",\"f\":%d", 5 + fmt);
+      g_out.beginFamily(pd->head + h);
+      for (const Spec& fs : firsts) {
+        if (fs.key[0] == 'B' && fs.key[1] == 'I' && pr.key[0] == 'B' && pr.key[1] == 'I') continue;   // bit fields would share the byte
+        Def* fd = makeDef(fs.key, fs.len, fs.div, 0);
+        const DataField* set = makePairSet(fs, pr);
+        for (const Bytes& fb : fs.pats) for (const Bytes& pb : pr.pats) emitPair(*fd, *pd, set, fmt, fb, pb);
+      }
+      g_out.endFamily("pairs");
+    }
+  }
+}
+
 // ---- replay of TLC generated text cases (C06 clause B): text -> encode -> decode -> encode -------------------------
 static long jint(const string& line, const char* key) {
   string k = string("\"") + key + "\":";
@@ -534,6 +612,17 @@ static void replayRecords(const char* file) {
       continue;
     }
     Bytes b = jarr(line, "b");
+    if (fmt == 5 || fmt == 6) {   // pair record: first field definition in ft/fl/fd, fn = number of bytes of the first field
+      string ft = jstrv(line, "ft");
+      Spec fs{ft.c_str(), (int)jint(line, "fl"), (int)jint(line, "fd"), {}}, ps{d->key.c_str(), d->len, d->div, {}};
+      Def* fd = makeDef(ft, fs.len, fs.div, 0);
+      size_t fn = (size_t)jint(line, "fn");
+      char h[32]; snprintf(h, sizeof h, ",\"f\":%d", fmt);
+      g_out.beginFamily(d->head + h);
+      emitPair(*fd, *d, makePairSet(fs, ps), fmt - 5, Bytes(b.begin(), b.begin() + fn), Bytes(b.begin() + fn, b.end()));
+      g_out.endFamily("replay");
+      continue;
+    }
     family(*d, fmt, "replay", [&](const PatFn& fn) { fn(b); });
   }
   free(buf); fclose(f);
@@ -560,6 +649,7 @@ int main(int argc, char** argv) {
   else if (group == "times") groupTimes();
   else if (group == "strings") groupStrings();
   else if (group == "tem") groupTem();
+  else if (group == "pairs") groupPairs();
   else if (group == "texts" && argc > 5) replayTexts(argv[5]);
   else if (group == "replay" && argc > 5) replayRecords(argv[5]);
   else { fprintf(stderr, "unknown group %s\n", group.c_str()); return 2; }
